@@ -537,14 +537,20 @@ impl Prop for Retention {
         for c in &raw.chunks {
             let mut t = Tape::new(c);
             let age_hours = t.pick(&[0u32, 1, 2, 5, 23, 25, 49, 100, 170, 400, 800, 2000, 3000]) + t.below(3) as u32;
-            let parent = if backups.is_empty() || t.chance(90) { None } else { Some(t.below(backups.len())) };
+            let parent = if backups.is_empty() || t.chance(70) { None } else if t.chance(128) { Some(backups.len() - 1) } else { Some(t.below(backups.len())) };
             backups.push(RBackup { age_hours, parent });
         }
-        // a child is never older than its parent
-        for i in 0..backups.len() {
-            if let Some(p) = backups[i].parent {
-                if backups[i].age_hours > backups[p].age_hours {
-                    backups[i].age_hours = backups[p].age_hours;
+        // usually a child is not older than its parent (clamped to the SAME second, which is what
+        // two chained backups taken quickly after each other look like); in one case out of
+        // six the clamp is skipped: a clock stepped backwards between parent and child.  The
+        // property has no precondition on timestamps.
+        let clock_stepped_back = t.chance(43);
+        if !clock_stepped_back {
+            for i in 0..backups.len() {
+                if let Some(p) = backups[i].parent {
+                    if backups[i].age_hours > backups[p].age_hours {
+                        backups[i].age_hours = backups[p].age_hours;
+                    }
                 }
             }
         }
